@@ -611,7 +611,10 @@ verdict (`MOVE i r` is ill-typed; after sending both names to `i` it is `MOVE i 
 theorem C30_rename_needs_injectivity :
     ∃ (f : String → String) (Γ : Decls) (body : List (Instr Nat)),
       typeCheck (fun _ => false) (Γ.rename f) (body.map (Instr.rename f)) ≠ typeCheck (fun _ => false) Γ body :=
-  ⟨fun _ => "i", [("i", .integer), ("r", .real)], [.move "i" (.mref "r")], by decide⟩
+  ⟨fun _ => "i", [("i", .integer), ("r", .real)], [.move "i" (.mref "r")], by
+    intro h
+    have h' : (Except.ok () : Except (Nat × TypeErr) Unit) = .error (0, .dataTypeMismatch) := h
+    cases h'⟩
 
 /-! ## Non-vacuity -/
 
